@@ -248,3 +248,34 @@ def per_call_reset(ctx, rm, rule: str, attrs):
     ok = i_reset is not None and i_task is not None and i_reset < i_task and seq[i_reset] in call.node.body
     ctx.ob(rule, cname(call, None, "_clear_call_cache() runs unconditionally before the task is built"), ok,
            "" if ok else "per-call state is not reset before the plan starts", where=where(call, call.node))
+
+
+def expand(func_node, expr, depth: int = 4):
+    """A copy of `expr` in which every local name that has exactly ONE definition in the function (a plain single-target
+    assignment) is replaced by its - likewise expanded - right-hand side.  Lets a rule compare what an expression computes
+    instead of how many temporaries its author used."""
+    import copy
+
+    defs = {}
+    counts = {}
+    for s in A.walk_stmts(func_node.body):
+        for t in A.targets_of(s):
+            if isinstance(t, ast.Name):
+                counts[t.id] = counts.get(t.id, 0) + 1
+                if isinstance(s, ast.Assign) and len(s.targets) == 1 and isinstance(s.targets[0], ast.Name):
+                    defs[t.id] = s.value
+        if isinstance(s, (ast.For, ast.AsyncFor)):
+            for n in ast.walk(s.target):
+                if isinstance(n, ast.Name):
+                    counts[n.id] = counts.get(n.id, 0) + 2
+    params = {a.arg for a in ast.walk(func_node.args) if isinstance(a, ast.arg)} if hasattr(func_node, "args") else set()
+
+    class X(ast.NodeTransformer):
+        def __init__(self, d):
+            self.d = d
+
+        def visit_Name(self, n):
+            if isinstance(n.ctx, ast.Load) and counts.get(n.id) == 1 and n.id in defs and n.id not in params and self.d > 0:
+                return X(self.d - 1).visit(copy.deepcopy(defs[n.id]))
+            return n
+    return X(depth).visit(copy.deepcopy(expr))
